@@ -11,7 +11,9 @@
 package fetcher
 
 import (
+	"bytes"
 	"context"
+	"slices"
 
 	"github.com/sourcenetwork/corekv"
 
@@ -19,6 +21,7 @@ import (
 	"github.com/sourcenetwork/defradb/errors"
 	"github.com/sourcenetwork/defradb/internal/connor"
 	"github.com/sourcenetwork/defradb/internal/db/id"
+	"github.com/sourcenetwork/defradb/internal/encoding"
 	"github.com/sourcenetwork/defradb/internal/keys"
 	"github.com/sourcenetwork/defradb/internal/planner/filter"
 	"github.com/sourcenetwork/defradb/internal/planner/mapper"
@@ -459,6 +462,26 @@ func (f *indexFetcher) newInIndexIterator(
 	// matching the filter value, so we can skip the first matcher
 	if len(matchers) > 1 {
 		matchers[0] = &anyMatcher{}
+	}
+
+	// Every value is visited once, so that no document is yielded twice. When the index also serves
+	// the ordering of the request the values are visited in the order of the index.
+	descending := f.indexDesc.Fields[0].Descending
+	encodedValue := func(v client.NormalValue) []byte { return encoding.EncodeFieldValue(nil, v, descending) }
+	seenValues := make(map[string]struct{}, len(inValues))
+	inValues = slices.DeleteFunc(inValues, func(v client.NormalValue) bool {
+		key := string(encodedValue(v))
+		_, seen := seenValues[key]
+		seenValues[key] = struct{}{}
+		return seen
+	})
+	if ordered, reverse := CanBeOrderedByIndex(f.ordering, f.indexDesc, f.mapping); ordered {
+		slices.SortFunc(inValues, func(a, b client.NormalValue) int {
+			return bytes.Compare(encodedValue(a), encodedValue(b))
+		})
+		if reverse {
+			slices.Reverse(inValues)
+		}
 	}
 
 	isUnique := isUniqueFetchByFullKey(&f.indexDesc, fieldConditions)
